@@ -47,10 +47,11 @@ def gen_reads(rng, n, paired):
             if rng.random() < 0.15:
                 q = "".join(chr(rng.choice([30, 31, 35, 60, 70])) for _ in s)   # below the base: zero-cap matters
             return s, q
+        tail = rng.choice(["x/1", "x/1", "x_b_a", "x_a_a", "x", "x/1/1"])
         s, q = one(1)
-        out1.append((f"r{i} length={len(s)} x/1", s, q))
+        out1.append((f"r{i} length={len(s)} {tail}", s, q))
         s, q = one(2)
-        out2.append((f"r{i} length={len(s)} y/2", s, q))
+        out2.append((f"r{i} length={len(s)} {tail.replace('/1', '/2')}", s, q))
     return out1, (out2 if paired else None)
 
 
@@ -94,8 +95,9 @@ def gen_stages(rng, paired):
         st.append(("trimn", ["--trim-n"]))
     if rng.random() < 0.4:
         st.append(("lengthtag", ["--length-tag", "length="]))
-    if rng.random() < 0.3:
-        st.append(("strip", ["--strip-suffix", "/1", "--strip-suffix", "/2"]))
+    if rng.random() < 0.35:
+        sufs = rng.choice([["/1", "/2"], ["/1", " x"], ["_a", "_b"], ["_a", "_a"], ["/1", "/1"], ["1", "/1"], ["/2", "/1", " x"]])
+        st.append(("strip", [x for sf in sufs for x in ("--strip-suffix", sf)]))
     r = rng.random()
     if r < 0.3:
         st.append(("xy", ["-x", "pre_", "-y", "_suf"]))
@@ -250,7 +252,16 @@ def one_case(ctx, k):
         # (c) chain of single-operation invocations in the documented order
         cur = list(inputs)
         ok = True
-        for i, (name, g) in enumerate(stages):
+        # repeated options are separate operations applied in the order given: one invocation each
+        chain = []
+        for name, g in stages:
+            if name == "strip":
+                chain += [(name, g[j:j + 2]) for j in range(0, len(g), 2)]
+            elif name == "cut" and len(g) == 4:
+                chain += [(name, g[0:2]), (name, g[2:4])]
+            else:
+                chain.append((name, g))
+        for i, (name, g) in enumerate(chain):
             outs = [f"ch{i}_1.fq"] + ([f"ch{i}_2.fq"] if paired else [])
             a = g + ["-o", outs[0]] + (["-p", outs[1]] if paired else []) + cur
             rc_ = climon.run(d, a, tag=f"chain{i}", trace=False)
